@@ -135,7 +135,8 @@ def run(ctx):
                                       '--fast', fast, '--n0', cfg['n0'], '--prog', COVER_PROG,
                                       '--schedules', sched], WHAT,
                                 label='cover replay strategy %d inl=%d fast=%d' % (cfg['strat'], inl, fast))
-            if tot.get('executions'):      # (a crashed driver is already reported; its trace is cut off)
+            # (a crashed / diverged / stuck driver run is already reported; its trace is cut off)
+            if tot.get('executions') and not (tot.get('diverged') or tot.get('stuck') or tot.get('deadlocks')):
                 traces.append(tr)
                 execs += tot.get('completed', 0)
     if traces:
@@ -162,7 +163,7 @@ def run(ctx):
     tr = os.path.join(ctx.work, 'random.ndjson')
     tot, _ = ctx.driver(exe, ['--out', tr, '--random', n, '--seed', ctx.seed, '--randprog'], WHAT,
                         label='random programs, random schedules, all trait combinations')
-    if tot.get('executions'):
+    if tot.get('executions') and not (tot.get('diverged') or tot.get('stuck') or tot.get('deadlocks')):
         traces.append(tr)
         execs += tot.get('completed', 0)
         ctx.sample_trace(tr, 8, skip=1)
